@@ -90,7 +90,8 @@ def impl_opts(oj, text):
             kw[k] = True
     mode = oj.get("tzids", 0)
     if mode == 0:
-        names = set(K.POOL_NAMES) | set(re.findall("TZID=([^:]+):", text))
+        names = set(K.POOL_NAMES) | set(re.findall("(?i)TZID=([^:]+):", text)) | \
+            set(re.findall("(?i)TZID=([^:]+):", text.replace("\r\n ", "").replace("\n ", "")))
         tzmap = {}
         for n in names:
             t = K.tztag(tz.gettz(n)) if all(ord(c) < 128 for c in n) and "\x00" not in n else 0
@@ -350,8 +351,14 @@ def gen_spelling(R, o):
         kw["until"] = kw["until"].replace(tzinfo=K.tzobj(1))
     nparts = len([k for k in kw])
     ch = K.gen_choice(R, nparts)
-    if tag >= 2:
-        ch["case"] = []
+    restore_name = False
+    if tag >= 2 and ch["case"]:
+        # the TZID name keeps its case (it is looked up verbatim); everything else may be lower case
+        if R.random() < 0.5:
+            ch["case"] = []
+        else:
+            ch["folds"] = []
+            restore_name = True
     oj = {"cache": R.random() < 0.2, "forceset": R.random() < 0.15, "compatible": R.random() < 0.1,
           "ignoretz": R.random() < 0.15, "tzids": mode, "unfold": bool(ch["folds"]) or R.random() < 0.1}
     if oj["compatible"]:
@@ -362,6 +369,8 @@ def gen_spelling(R, o):
     elif R.random() < 0.2:
         oj["dtstart"] = dt_j(K.gen_dt(R, 0))          # overridden by the DTSTART line
     text = spell(o, ch, tag_name(tag), start, kw)
+    if restore_name and ch["inline"] != 0:
+        text = re.sub(re.escape(tag_name(tag)), lambda _m: tag_name(tag), text, flags=re.I)
     ekw = dict(kw)
     if "until" in ekw:
         ekw["until"] = eff(ekw["until"], oj["ignoretz"], True)
@@ -552,11 +561,11 @@ def eval_prims(o, cases, issues, stats):
         return lines
     ops = [(0, lambda s: K.e_str(s.upper())), (1, lambda s: lst(s.split())), (2, lambda s: lst(s.splitlines())),
            (3, py_int), (4, lambda s: K.e_str(s.strip())), (5, lambda s: K.e_str(s.rstrip())),
-           (6, lambda s: lst(re.findall("TZID=(?P<name>[^:]+):", s))), (9, lambda s: lst(unfold(s)))]
+           (6, lambda s: lst(re.findall("(?i)TZID=(?P<name>[^:]+):", s))), (9, lambda s: lst(unfold(s)))]
     reqs, exps = [], []
     for s in cases:
         for op, f in ops:
-            t = s if op != 6 else s.replace("a", "TZID=").replace("A", "TZID=")
+            t = s if op != 6 else s.replace("a", "TZID=").replace("A", "tzId=").replace("z", "tzid=")
             reqs.append((K.E_PRIM, [op] + K.e_str(t)))
             exps.append((op, t, f(t)))
     res = o.call_many(reqs)
@@ -613,44 +622,12 @@ def eval_dates(o, R, tier, issues, stats):
 
 # ------------------------------------------------------------------ known findings
 
-def m_missing_freq(p):
-    # TypeError from rrule() without freq.  When a date value leaves the modelled forms the model
-    # cannot confirm the class; then the text must not contain a FREQ part at all.
-    inp = p.get("input") or {}
-    return p.get("stream") in ("malformed", "regression") and p.get("impl") == [0, 2] and (
-        p.get("model") == [0, 2] or (p.get("model") == [0, 9] and "FREQ=" not in inp.get("text", "").upper()))
-
-
-def m_overflow(p):
-    # generic parser raises OverflowError on an overlong digit group (C14's territory)
-    inp = p.get("input") or {}
-    return p.get("stream") in ("malformed", "regression") and p.get("impl") == ["EXC", "OverflowError"] and \
-        p.get("model") == [0, 9] and re.search(r"\d{15,}", inp.get("text", "")) is not None
-
-
-def m_no_rrule(p):
-    return p.get("stream") in ("malformed", "regression") and p.get("impl") == [0, 3] and \
-        p.get("model") in ([0, 3], [0, 9])
-
-
-def m_tzid_fold(p):
-    # a fold point inside the TZID parameter (its keyword or its value): the TZID names the
-    # implementation collects from the folded text differ from those of the unfolded text
-    inp = p.get("input") or {}
-    t = inp.get("text", "")
-    rx = "TZID=(?P<name>[^:]+):"
-    return p.get("stream") == "spelling" and bool((inp.get("opts") or {}).get("unfold")) and \
-        re.findall(rx, t) != re.findall(rx, t.replace("\n ", ""))
-
-
 def m_firstweekday(p):
     inp = p.get("input") or {}
     return p.get("stream") == "roundtrip" and inp.get("fwd", 0) != 0 and (inp.get("kw") or {}).get("wkst") in (0, {"wd": 0})
 
 
-MATCHERS = {"c13_missing_freq_typeerror": m_missing_freq, "c13_no_rrule_indexerror": m_no_rrule,
-            "c13_wkst_mo_firstweekday": m_firstweekday, "c13_fold_inside_tzid": m_tzid_fold,
-            "c13_date_overflowerror": m_overflow}
+MATCHERS = {"c13_wkst_mo_firstweekday": m_firstweekday}
 
 
 # ------------------------------------------------------------------ main
@@ -1003,7 +980,9 @@ def main():
         "differential_only": ["tzinfos option", "tzids=None (tz.gettz) beyond the names used",
                               "date values outside YYYYMMDD[THHMMSS[Z]] (generic parser)",
                               "occurrence equality of equal rule states (C01's iteration)",
-                              "non-ASCII text"],
+                              "non-ASCII text",
+                              "TZID parameter with a lower-cased keyword or a VALUE parameter, TZID on EXDATE lines",
+                              "ignoretz / tzids at whole-text level (ignoretz is proved at the level of the rule parts)"],
         "known_findings_hit": verdict.known_hits,
         "anchored_line_coverage": covinfo,
     }
